@@ -96,6 +96,10 @@ simcall:
 	mov	rdi, [rdi + F_ARGS + 0]
 	call	[tmp_fn]
 	; ---- back from the library: capture before touching anything
+	; (the trap flag may still be set by the signal-fault mode: clear it; the arithmetic flags and DF are kept for the capture below)
+	pushfq
+	and	qword [rsp], ~0x100
+	popfq
 	mov	[tmp_rax], rax
 	mov	rax, [g_simframe]
 	mov	[rax + F_OUT_RSP], rsp
